@@ -1,8 +1,11 @@
 (* C10 -- Westfall-Young adjusted p-values dominate raw ones and control FWER exactly.
-   Statements only; proofs in Proofs/WYProofs.v, Lib/RankValid.v.  The model of the code
-   (westfall_young_table) and the textbook step-down procedure (wy_spec) are both evaluated against the
-   implementation on every correspondence case; that the two coincide is checked there, not proved. *)
-From PV Require Import Lib.Base Model.WY Proofs.WYProofs.
+   Statements only; proofs in Proofs/WYProofs.v, Proofs/WYChain.v, Proofs/WYSpecProofs.v, Lib/RankValid.v.
+   The model of the code (westfall_young_table: in-place loops over the table of statistics -- successive
+   minima / maxima along the testing order, counts, running maximum) IS the textbook step-down procedure
+   (wy_spec) for every table: C10_model_is_textbook_minp / _maxt.  Both are also evaluated against the
+   implementation on every correspondence case. *)
+From PV Require Import Lib.Base Model.WY Proofs.WYProofs Proofs.WYChain Proofs.WYSpecProofs.
+From Coq Require Import Permutation Sorted.
 Open Scope Q_scope.
 
 (* raw p-values are the usual (count+1)/(reps+1): the observed row counts itself among reps+1 rows *)
@@ -10,6 +13,34 @@ Theorem C10_raw_pvalue_is_rank_over_all_rows : forall a tsc tvc,
   raw_p a tsc tvc == qn (count_if (fun v => Qle_bool (tr a tsc) (tr a v)) (tsc :: tvc)) / qn (length (tsc :: tvc)).
 Proof. exact raw_p_is_rank_over_all_rows. Qed.
 Print Assumptions C10_raw_pvalue_is_rank_over_all_rows.
+
+(* ---- model of the code = textbook step-down procedure, for EVERY table of statistics ---- *)
+(* whatever westfall_young_table returns for min-P equals (entrywise, as rationals) the textbook step-down
+   min-P values wy_spec computes along the order Lasc in which the code tests the hypotheses; Lasc is a
+   permutation of the hypotheses along which the raw p-values are non-decreasing (stable sort) *)
+Theorem C10_model_is_textbook_minp : forall ts sims alts adj raw,
+  westfall_young_table ts sims MinP alts = Ok (adj, raw) ->
+  let Lasc := rev (minp_order ts sims alts) in
+  Permutation Lasc (seq 0 (length ts)) /\
+  Forall2 Qeq adj (fst (wy_spec ts sims MinP alts Lasc)) /\
+  Forall2 Qeq raw (snd (wy_spec ts sims MinP alts Lasc)).
+Proof. exact wy_minp_model_eq_spec. Qed.
+Print Assumptions C10_model_is_textbook_minp.
+
+Theorem C10_minp_order_is_sorted_by_raw_p : forall ts sims alts,
+  StronglySorted (fun i j => nth j (rawl ts sims alts) 0 <= nth i (rawl ts sims alts) 0) (minp_order ts sims alts).
+Proof. exact minp_order_sorted. Qed.
+Print Assumptions C10_minp_order_is_sorted_by_raw_p.
+
+(* the same for max-T along the order Ldesc used by the code *)
+Theorem C10_model_is_textbook_maxt : forall ts sims alts adj raw,
+  westfall_young_table ts sims MaxT alts = Ok (adj, raw) ->
+  let Ldesc := rev (maxt_order ts alts) in
+  Permutation Ldesc (seq 0 (length ts)) /\
+  Forall2 Qeq adj (fst (wy_spec ts sims MaxT alts Ldesc)) /\
+  Forall2 Qeq raw (snd (wy_spec ts sims MaxT alts Ldesc)).
+Proof. exact wy_maxt_model_eq_spec. Qed.
+Print Assumptions C10_model_is_textbook_maxt.
 
 (* step-down min-P: the value attached to the most significant hypothesis is the rank of the row's smallest
    permutation p-value among all rows; later values take the minimum over the remaining hypotheses only and
